@@ -44,8 +44,8 @@ CLAIMED = {
  "C13": dict(level="exploration", tech="deterministic simulation: LogoutRequests stamped by skewed SP clocks and delivered at instants aimed at IssueInstant / NotOnOrAfter under the simulated clock, SP re-registration / deletion racing the request's storage call; independent evaluator + delivery-target invariant",
    text="Seeded search over logout requests (registered / unregistered / absent issuer, lexical forms of timestamps, both transport encodings, hard RelayState) and SP registrations with 0..n SingleLogoutService entries. Success implies decodable, registered issuer (in the snapshot the request saw), IssueInstant <= t_return and NotOnOrAfter > t_invoke; decodable implies InResponseTo echo; Issuer, target (first registered location or body), Destination and RelayState are compared with the snapshot.",
    ref="§5 C13", note="Known findings: encoding/xml leniencies (not well-formed requests answered with Success) and CR normalisation of RelayState in the HTML form."),
- "C15": dict(level="exploration", tech="deterministic simulation: seeded interleavings of 2–8 concurrent requests on all endpoints parked at every storage / body / writer seam; scheduler-chosen overlap windows run under the Go race detector (go test -race); per-entity marker noninterference oracle, shared-state hash probe, ID multiset; plus an ID stage with the real randomness source",
-   text="Seeded search over schedules: every session, user, SP and host carries a unique marker and a reply may contain only markers that occurred in its own request or in a storage record handed to that very request (no other session's request ID, RelayState, consumer URL, audience, issuer host or user attributes). Half of the workers run the race-detector build and resume chosen pairs of tasks without an ordering edge, so conflicting unsynchronised accesses in those segments are reported. All response / assertion / metadata IDs of a run must be pairwise distinct NCNames; a separate stage draws 2·10^5 (thorough: 2·10^6) IDs from 16 goroutines with the real crypto/rand source.",
+ "C15": dict(level="exploration", tech="deterministic simulation: seeded interleavings of 2–8 concurrent requests on all endpoints parked at every storage / body / writer seam; scheduler-chosen overlap windows run under the Go race detector (go test -race); per-entity marker noninterference oracle, reference-model oracle (every undisturbed reply is compared with the reply of a freshly built provider instance to the same request at the same simulated instant over the same storage contents), shared-state hash probe, ID multiset; plus an ID stage with the real randomness source",
+   text="Seeded search over schedules: every session, user, SP and host carries a unique marker and a reply may contain only markers that occurred in its own request or in a storage record handed to that very request (no other session's request ID, RelayState, consumer URL, audience, issuer host or user attributes). Every reply of a request whose life saw one storage state, no fault and no clock move is also compared (modulo ids, signature values and custom-attribute order) with a shadow re-execution of the same request bytes on a fresh provider instance: a difference means the reply depended on an earlier or a concurrent request. Half of the workers run the race-detector build and resume chosen pairs of tasks without an ordering edge, so conflicting unsynchronised accesses in those segments are reported. All response / assertion / metadata IDs of a run must be pairwise distinct NCNames; a separate stage draws 2·10^5 (thorough: 2·10^6) IDs from 16 goroutines with the real crypto/rand source.",
    ref="§5 C15", note="Instruction-level interleaving inside an overlap window is not controlled by the simulator (Go offers no seam); which segments overlap is a plan decision and replays. The shared-state hash is a probe, not a violation."),
 }
 
